@@ -157,3 +157,18 @@ package failsafehttp
 //@   builder
 //@   ensures [C18.new_request] result != nil && fresh(result) && result.executor == executor && result.request == request && result.client == client
 //@   modifies nothing
+
+// the policy variants build the executor from exactly the given policies
+//@ func NewRoundTripper
+//@   oldlet n := 0
+//@   oncall NewExecutor: n := n + 1; ps := callarg_0; x := callresult_0
+//@   let t := asref(result, *roundTripper)
+//@   ensures [C18.new_round_tripper.from_policies] n == 1 && len(ps) == len(policies) && (forall j int :: 0 <= j && j < len(policies) ==> ps[j] == policies[j]) && typeis(result, *roundTripper) && t.executor == x && (innerRoundTripper != nil ==> t.next == innerRoundTripper)
+//@   havoc
+//@   modifies *
+//@ func NewRequest
+//@   oldlet n := 0
+//@   oncall NewExecutor: n := n + 1; ps := callarg_0; x := callresult_0
+//@   ensures [C18.new_request.from_policies] n == 1 && len(ps) == len(policies) && (forall j int :: 0 <= j && j < len(policies) ==> ps[j] == policies[j]) && result != nil && result.executor == x && result.request == request && result.client == client
+//@   havoc
+//@   modifies *
